@@ -112,8 +112,8 @@ pub fn run(args: &Args) -> i32 {
         };
         ev.evaluations = 1;
         let all: Vec<FeatureSet> = (0..4096u16).map(FeatureSet).collect();
-        let v = check_case(&case, &all).violations;
-        return finish(args, ev, v, &|c| check_case(c, &all).violations);
+        let v = if case.cfg.get("edits").is_some() { crate::props::edits::recheck_as("C20", &case) } else { check_case(&case, &all).violations };
+        return finish(args, ev, v, &|c| if c.cfg.get("edits").is_some() { crate::props::edits::recheck_as("C20", c) } else { check_case(c, &all).violations });
     }
     let ms = crate::props::families::members(&["fixtures", "struct", "funcs", "locals", "ctrl", "reach", "minimal"], args, &mut ev);
     let mut cases: Vec<Case> = ms.iter().map(Case::of).collect();
@@ -131,5 +131,7 @@ pub fn run(args: &Args) -> i32 {
     let small = subsets(Tier::Quick);
     let viol = run_sweep(args, &mut ev, &cases, &|c| if c.family == "body" || (c.family == "struct" && c.coords.matches(',').count() >= 2) { check_case(c, &small) } else { check_case(c, &subs) });
     let all: Vec<FeatureSet> = if args.tier == Tier::Thorough { subs.clone() } else { subs.clone() };
-    finish(args, ev, viol, &|c| check_case(c, &all).violations)
+    let mut viol = viol;
+    viol.extend(crate::props::edits::run_model_as("C20", args, &mut ev));
+    finish(args, ev, viol, &|c| if c.cfg.get("edits").is_some() { crate::props::edits::recheck_as("C20", c) } else { check_case(c, &all).violations })
 }
